@@ -34,6 +34,8 @@ for pid, text, tech in [
      "property-based testing: metamorphic relation over surface renderings (Hypothesis)"),
     ("C06", DOC + "oracle: metamorphic - every option set loads to the default formatting's dictionary; grouping rule for separate_complex_types; full cross product in the thorough tier.",
      "property-based testing: metamorphic relation over the formatter option product (Hypothesis + enumeration)"),
+    ("C10", "Exhaustive enumeration of all well-typed expression trees up to 3/4 operators plus Hypothesis-drawn larger trees with every operator spelling, operand kind and redundant parenthesisation; oracle: an independent precedence-climbing reference parser re-reads the normalised string and must obtain the same tree, independent reader checks the printed form, fixed point on re-parse.",
+     "property-based testing: reference parser oracle; exhaustive small trees + Hypothesis random trees"),
     ("C16", DOC + "oracle: an independent reader of the printed text checks the layout contract line by line.",
      "property-based testing: independent reader / validity predicate over documents x option sets (Hypothesis)"),
     ("C17", "Exhaustive breadth-first exploration of every reachable state over a small key/value alphabet with every operation applied in every state, exhaustive operation sequences from the empty dict up to a length bound, and a Hypothesis rule-based state machine for long histories; oracle: reference model (OrderedDict keyed by lower-cased keys + default rule).",
